@@ -9,7 +9,7 @@ VARIABLES w
 
 Ks     == {2, 3, 4, 8, 16, 32, 64}
 Cs     == {1, 2, 4, 16}
-Mixes  == {"same", "two", "distinct", "endpoints", "range1", "rangeTwin", "rangeDisjoint", "mixed"}
+Mixes  == {"same", "two", "distinct", "endpoints", "range1", "rangeTwin", "rangeDisjoint", "rangeShort", "rangeShortSame", "mixed"}
 Faults == {"none", "first", "flaky"}
 Lats   == {"none", "short", "long"}
 
